@@ -55,6 +55,18 @@ fi
 if [ -n "$GATE" ]; then
   PROOF_STATUS="broken: forbidden declaration in development: $(echo "$GATE" | head -1)"
 fi
+# thorough tier: the independent checker on the property's compiled file and all it depends on
+export VERIF_COQCHK=""
+if [ "$MODE" = thorough ] && [ "$PROOF_STATUS" = ok ]; then
+  CHK="$(cd coq && timeout 7200 coqchk -silent -o -Q . V "V.Properties.$PROP" 2>&1)"; CRC=$?
+  SUMMARY="$(echo "$CHK" | sed -n '/CONTEXT SUMMARY/,$p' | grep -v '^ *$' | tr '\n' ' ' | cut -c1-600)"
+  if [ $CRC -ne 0 ]; then
+    PROOF_STATUS="broken: coqchk rejects Properties/$PROP.vo: $(echo "$CHK" | tail -5 | tr '\n' ' ' | cut -c1-300)"
+  elif ! echo "$CHK" | grep -q "Axioms: <none>"; then
+    PROOF_STATUS="broken: coqchk reports axioms: $SUMMARY"
+  fi
+  export VERIF_COQCHK="coqchk -silent -o: $SUMMARY"
+fi
 case "$BUILD_STATUS" in *translator*) [ "$PROOF_STATUS" = ok ] && PROOF_STATUS="broken: $BUILD_STATUS";; esac
 
 OBL=0; DIS=0
